@@ -112,7 +112,15 @@ func VerifC17Map() {
 		case mopTxn, mopTxnReuse:
 			tx := base.m.Txn()
 			nm := base.model.Snapshot()
+			var keptSnap *vnd.Map
+			var keptAll, keptPre, keptLB func(yield func(string, uint64) bool)
 			for j := 0; j < 2; j++ {
+				if j == 1 {
+					// iterators taken inside the transaction list its contents at that moment
+					// and are not affected by its later writes
+					keptSnap = nm.Snapshot()
+					keptAll, keptPre, keptLB = tx.All(), tx.Prefix("a"), tx.LowerBound("a")
+				}
 				k := vnd.String("tk", L)
 				if vnd.IntRange("top", 0, 1) == 0 {
 					tx.Set(k, val+uint64(j))
@@ -122,6 +130,14 @@ func VerifC17Map() {
 					_, mh := nm.Del([]byte(k))
 					vnd.Assert(vnd.Iff(had, mh), "C17.txn.delete.had")
 				}
+			}
+			{
+				keys, vals := collectMap(keptAll)
+				keptSnap.CheckOrdered(keys, vals, vnd.SelAll, "C17.txn.kept-all")
+				keys, vals = collectMap(keptPre)
+				keptSnap.CheckOrdered(keys, vals, vnd.SelPrefix([]byte("a")), "C17.txn.kept-prefix")
+				keys, vals = collectMap(keptLB)
+				keptSnap.CheckOrdered(keys, vals, vnd.SelLowerBound([]byte("a")), "C17.txn.kept-lowerbound")
 			}
 			tv, tok := tx.Get("a")
 			mv, mok := nm.Get([]byte("a"))
